@@ -391,7 +391,10 @@ def unit_overlap_iter(sess, ctx):
             eng.prove("C10:overlap:first-block-nonempty", c > 0, props=P10)
             gh["first_end"] = c
         else:
-            k = gh["k"]
+            k = gh.get("k")
+            if k is None:
+                eng.prove("C10:overlap:yield-outside-the-expected-phases", False, props=P10)
+                raise PathEnd()
             if val is None:
                 gh["yielded_none"] = True
                 # None exactly when the previous block already reached the end of the data
